@@ -179,9 +179,28 @@ def scalar_target(g):
     return r.choice(["x", "y", "z", "r(2)", r.choice(["r(k)", "r(n-1)", "r(3)"]), "m(2,3)", r.choice(["q(1,3)", "q(k,n)"])])
 
 
+def safe_expr(g, depth=0):
+    """scalar expression that cannot evaluate to a negative zero (no `*`, no SIGN, no unary minus)"""
+    r = g.rng
+    if depth >= 2 or r.random() < 0.4:
+        return g.scalar_leaf()
+    a, b = safe_expr(g, depth + 1), safe_expr(g, depth + 1)
+    kind = r.choice(["+", "-", "min", "max", "abs"])
+    if kind == "abs":
+        return f"abs({a})"
+    return f"{kind}({a}, {b})" if kind in ("min", "max") else f"({a} {kind} {b})"
+
+
 def case_intr(g):
     r = g.rng
     name = r.choice(["ABS", "SIGN", "MIN", "MAX"])
+    trans = {"ABS": "Abs2CodeTrans", "SIGN": "Sign2CodeTrans", "MIN": "Min2CodeTrans", "MAX": "Max2CodeTrans"}[name]
+    if name == "SIGN":
+        # the second argument must not be a negative zero (outside the documented domain)
+        call = f"sign({g.scalar_expr(1)}, {safe_expr(g)})"
+        e = r.choice([call, f"({call} + {g.scalar_expr(1)})", f"max({call}, {g.scalar_expr(1)})", f"({call} * 2.0)"])
+        return {"kind": "intr", "flavour": name, "stmts": [f"{scalar_target(g)} = {e}"], "trans": trans,
+                "target": ["intrinsic", name, 0]}
     for _ in range(30):
         e = g.scalar_expr(intr=name.lower())
         cnt = e.count(name.lower() + "(")
@@ -189,8 +208,7 @@ def case_intr(g):
             break
     else:
         e, cnt = f"{name.lower()}(x, y)" if name != "ABS" else "abs(x)", 1
-    return {"kind": "intr", "flavour": name, "stmts": [f"{scalar_target(g)} = {e}"],
-            "trans": {"ABS": "Abs2CodeTrans", "SIGN": "Sign2CodeTrans", "MIN": "Min2CodeTrans", "MAX": "Max2CodeTrans"}[name],
+    return {"kind": "intr", "flavour": name, "stmts": [f"{scalar_target(g)} = {e}"], "trans": trans,
             "target": ["intrinsic", name, r.randrange(cnt)]}
 
 
